@@ -355,6 +355,18 @@ int64_t evaluate_incdec(
         if (!var || var->struct_members.empty()) {
             throw std::runtime_error("Undefined struct variable: " + obj_name);
         }
+        // the member's current value lives in the variable "obj.member": bring
+        // the struct's own copy up to date before it is modified, and write the
+        // new value back afterwards (otherwise the update is lost)
+        interpreter.sync_struct_members_from_direct_access(obj_name);
+        struct MemberWriteBack {
+            Interpreter &interp;
+            Variable *struct_var;
+            const std::string &member;
+            ~MemberWriteBack() {
+                interp.sync_individual_member_from_struct(struct_var, member);
+            }
+        } member_write_back{interpreter, var, member_name};
 
         auto it = var->struct_members.find(member_name);
         if (it == var->struct_members.end()) {
